@@ -392,11 +392,17 @@ func c18TypesCheck(ctx *vfCtx, c c18TypesCase) {
 		var v Version
 		ok = c18Decode(s, c.Kind, body, &v)
 	case "MSC2836Request":
-		s.call("NewMSC2836EventRelationshipsRequest", func() { r, err := NewMSC2836EventRelationshipsRequest(bytes.NewReader(c18Copy(body))); ok = err == nil && r != nil })
+		s.call("NewMSC2836EventRelationshipsRequest", func() {
+			r, err := NewMSC2836EventRelationshipsRequest(bytes.NewReader(c18Copy(body)))
+			ok = err == nil && r != nil
+		})
 	case "MSC2836Response":
 		var v MSC2836EventRelationshipsResponse
 		if ok = c18Decode(s, c.Kind, body, &v); ok {
-			s.call("UntrustedEvents", func() { _ = v.Events.UntrustedEvents(gomatrixserverlib.RoomVersion(c.Version)); _ = v.AuthChain.UntrustedEvents(gomatrixserverlib.RoomVersion(c.Version)) })
+			s.call("UntrustedEvents", func() {
+				_ = v.Events.UntrustedEvents(gomatrixserverlib.RoomVersion(c.Version))
+				_ = v.AuthChain.UntrustedEvents(gomatrixserverlib.RoomVersion(c.Version))
+			})
 		}
 	case "RoomHierarchyResponse":
 		var v RoomHierarchyResponse
